@@ -65,6 +65,7 @@ fn judge(src: &str, with_cli: bool, o: &mut Outcome, detail: &Value) {
     let mut seen: Vec<BTreeSet<Vec<String>>> = sizes.iter().map(|_| BTreeSet::new()).collect();
     let mut reps = 0usize;
     let mut differing = 0usize;
+    let started = std::time::Instant::now();
     loop {
         reps += 1;
         o.evals += 1;
@@ -82,6 +83,11 @@ fn judge(src: &str, with_cli: bool, o: &mut Outcome, detail: &Value) {
         }
         let covered = seen.iter().zip(sizes.iter()).all(|(s, k)| s.len() >= factorial((*k).min(4)));
         if (reps >= 20 && covered) || reps >= 600 {
+            break;
+        }
+        // programs the analyzer needs hundreds of milliseconds for: at least 4 repetitions within 2 s
+        if reps >= 4 && started.elapsed().as_millis() > 2000 {
+            o.class("repetitions-cut-by-time-budget");
             break;
         }
     }
@@ -142,21 +148,77 @@ fn judge(src: &str, with_cli: bool, o: &mut Outcome, detail: &Value) {
     }
 }
 
+/// the same command line with profiles (one of them bound to two env files that disagree, two forced ones) in
+/// 12 fresh processes: which file feeds a profile, and the order of profiles, must not depend on the process
+fn judge_profiles(src: &str, o: &mut Outcome, detail: &Value) {
+    let Ok(Ok(program)) = panics::catch(|| tx3_lang::parsing::parse_string(src)) else {
+        o.class("program-not-parseable");
+        return;
+    };
+    let mut keys: Vec<String> = program.parties.iter().map(|p| p.name.value.to_uppercase()).collect();
+    if let Some(env) = &program.env {
+        keys.extend(env.fields.iter().map(|f| f.name.to_uppercase()));
+    }
+    let file = |tag: &str, val: &str| -> String {
+        let body: String = keys.iter().map(|k| format!("{k}={val}\n")).collect();
+        super::c17::scratch_file(&format!("{tag}.env"), &body)
+    };
+    let (base, over, third) = (file("base", "1"), file("override", "2"), file("third", "3"));
+    let extra: Vec<String> = [
+        "--protocol-name", "demo",
+        "--profile-env-file", &format!("preview:{base}"),
+        "--profile-env-file", &format!("preview:{over}"),
+        "--profile-env-file", &format!("mainnet:{third}"),
+        "--profile-env-file", &format!("preview:{third}"),
+        "--profile", "local",
+        "--profile", "staging",
+        "--profile", "mainnet",
+    ]
+    .iter()
+    .map(|s| s.to_string())
+    .collect();
+    let mut outs = vec![];
+    for i in 0..12 {
+        o.evals += 1;
+        match super::c17::run_tx3c_with(src, &format!("pr{i}"), &extra) {
+            Ok(b) => outs.push(b),
+            Err(_) => {
+                o.class("tx3c-failed");
+                return;
+            }
+        }
+    }
+    let distinct: BTreeSet<&Vec<u8>> = outs.iter().collect();
+    if distinct.len() > 1 {
+        o.class("tii-with-profiles-differs-across-processes");
+        o.violate(
+            Violation::new(
+                "nondeterministic|tii-across-processes|profiles",
+                format!("12 fresh tx3c processes with one command line (3 profiles, one bound to three env files) wrote {} different TII files", distinct.len()),
+            )
+            .with_detail(detail.clone()),
+        );
+    } else {
+        o.class("tii-with-profiles-identical-across-processes");
+    }
+}
+
 impl Prop for C18 {
     fn id(&self) -> &'static str {
         "C18"
     }
     fn rule(&self, _tier: Tier) -> String {
         "every corpus program, 6 directive-bearing bases (withdrawal 3 fields, plutus_witness 2, vote delegation 2, publish 5, donation, all together) \
-         and every spelling-generator program with <= 1 deviation: parse+analyze+lower+to_bytes repeated in one process until every iteration order \
+         every spelling-generator program with <= 1 deviation and every distinct program of the typed generator (gen::prog) with <= 2 (thorough 3) deviations: parse+analyze+lower+to_bytes repeated in one process until every iteration order \
          of every directive's field map (k! for k <= 4 fields) was observed and at least 20 times (cap 600); three fresh tx3c processes; all encodings \
-         and all TII files byte-identical, embedded IR = in-process encoding. Non-trivial = program lowered and repeated; distinct = distinct sources."
+         and all TII files byte-identical, embedded IR = in-process encoding. Every corpus program additionally through 12 fresh tx3c processes with one command line that declares profiles (one bound to three env files with different values, forced profiles, a protocol name): one byte string. Non-trivial = program lowered and repeated; distinct = distinct sources."
             .into()
     }
     fn assumptions(&self) -> Vec<String> {
         vec![
             "std's per-instance hasher keys cannot be chosen; the iteration order of each directive map is observed on the lowered value and the run continues until all orders were seen".into(),
             "for maps of 5 fields (publish) 24 distinct orders are required, not all 120".into(),
+            "a program whose analysis takes so long that 20 repetitions exceed 2 s is repeated at least 4 times (class repetitions-cut-by-time-budget)".into(),
         ]
     }
     fn bound(&self, _tier: Tier) -> String {
@@ -165,6 +227,9 @@ impl Prop for C18 {
     fn case_identity(&self, case: &Value) -> String {
         case["src"].as_str().unwrap_or("").to_string()
     }
+    fn observation_is_proof(&self) -> bool {
+        true
+    }
     fn enumerate(&self, tier: Tier, sink: &mut Sink) {
         for (name, src) in directive_bases() {
             sink.case(|| json!({"kind": "directive-base", "file": name, "src": src, "cli": true}));
@@ -172,14 +237,27 @@ impl Prop for C18 {
         for (name, src) in c13::corpus(tier) {
             sink.case(|| json!({"kind": "corpus", "file": name, "src": src, "cli": true}));
         }
+        for (name, src) in c13::corpus(tier) {
+            sink.case(|| json!({"kind": "cli-profiles", "file": name, "src": src}));
+        }
         let mut gen = |c: &mut crate::engine::dbx::Chooser| super::c17::gen_program_pub(c);
         crate::engine::dbx::explore(if tier.is_thorough() { 2 } else { 1 }, &mut gen, &mut |choices, _d, src| {
             sink.case(|| json!({"kind": "spelling", "choices": choices, "src": src, "cli": tier.is_thorough()}));
         });
+        for src in crate::gen::prog::distinct_sources(if tier.is_thorough() { 3 } else { 2 }) {
+            sink.case(|| json!({"kind": "generator", "src": src, "cli": tier.is_thorough()}));
+        }
     }
     fn run(&self, case: &Value) -> Outcome {
         let mut o = Outcome::default();
         let src = case["src"].as_str().unwrap_or("");
+        if case["kind"] == "cli-profiles" {
+            judge_profiles(src, &mut o, &json!({"kind": case["kind"], "file": case["file"]}));
+            if o.classes.keys().any(|k| k.starts_with("tii-with-profiles")) {
+                o.key(hash64(&format!("profiles:{src}")));
+            }
+            return o;
+        }
         judge(src, case["cli"].as_bool().unwrap_or(false), &mut o, &json!({"kind": case["kind"], "file": case["file"]}));
         if o.classes.keys().any(|k| k.starts_with("in-process") || k.starts_with("encoding")) {
             o.key(hash64(src));
